@@ -18,6 +18,7 @@ import (
 	"github.com/vipnode/vipnode/v2/ethnode"
 	"github.com/vipnode/vipnode/v2/jsonrpc2"
 	"github.com/vipnode/vipnode/v2/pool"
+	"github.com/vipnode/vipnode/v2/pool/status"
 	"github.com/vipnode/vipnode/v2/pool/store"
 	"verifharness/vlib"
 )
@@ -242,6 +243,15 @@ func c10PoolRound(ev *vlib.Evidence, driver, transport string, idx int) {
 		}
 		hs := &jsonrpc2.HTTPServer{}
 		hs.Server.Register("vipnode_", w.Pool, "connect", "update", "peer", "ping")
+		// the dashboard service and the block-number provider, wired as pool.go does
+		hs.Server.Register("pool_", &status.PoolStatus{Store: w.Store, TimeStarted: time.Now(), Version: "verif", CacheDuration: time.Millisecond})
+		w.Pool.BlockNumberProvider = func(network ethnode.NetworkID) (uint64, error) {
+			st, err := w.Pool.Store.Stats()
+			if err != nil {
+				return 0, err
+			}
+			return st.LatestBlockNumber, nil
+		}
 		httpSrv = &http.Server{Handler: hs}
 		go httpSrv.Serve(ln)
 		defer httpSrv.Close()
@@ -308,6 +318,25 @@ func c10PoolRound(ev *vlib.Evidence, driver, transport string, idx int) {
 	}
 	rounds := 2 + r.Intn(4)
 	var wg sync.WaitGroup
+	if transport == "http" {
+		// dashboards poll the status while agents update
+		stopStatus := make(chan struct{})
+		defer close(stopStatus)
+		for g := 0; g < 2; g++ {
+			go func() {
+				svc := &jsonrpc2.HTTPService{Endpoint: httpURL}
+				for {
+					select {
+					case <-stopStatus:
+						return
+					default:
+					}
+					var resp status.StatusResponse
+					w.Raw(svc, "pool_status", &resp)
+				}
+			}()
+		}
+	}
 	for _, c := range clients {
 		wg.Add(1)
 		go func(c *cl) {
